@@ -280,11 +280,6 @@ package tmi
 
 // ---- header replay (C04, C01) ----
 
-//@ iface gcrypto.CommonMessageSignatureProofScheme.New(sch, msg, candidateKeys, pubKeyHash)
-//@   ensures result1 == nil ==> result0 != nil && fresh(ref(result0)) && pmsg(result0) == bytes(msg) && pkeys(result0) == candidateKeys && pkhash(result0) == pubKeyHash &&
-//@       (forall i mathint :: {pbits(result0)[i]} !pbits(result0)[i])
-//@   modifies nothing
-
 //@ iface tmstore.RoundStore.SaveRoundReplayedHeader(st, ctx, h)
 //@   modifies nothing
 //@ iface tmstore.RoundStore.OverwriteRoundPrecommitProofs(st, ctx, height, round, proofs)
